@@ -91,7 +91,9 @@ PATHFORMS = ['bare', 'dot', 'sub', 'subslash', 'dotdot', 'abs', 'noext', 'dots',
 LONGDIR = 'sub/' + 'L' * 140 + '.d/' + 'M' * 150   # directory part longer than NAME_MAX (255) bytes, far below PATH_MAX
 CWDFORMS = ['out', 'root', 'elsewhere']
 OPTS = [[], ['-c'], ['-f', '1'], ['-c', '-f', '2', '-t', '3'], ['-p', '-g'], ['-m', '-c'], ['-d', 'gnu-ld'], ['-d', 'gnu-ld', '-c', '-f', '1'],
-        ['-r', 'REF', '-f', '1'], ['-r', 'REF', '-c', '-f', '3', '-t', '2'], ['-r', 'REF'], ['-f', '100'], ['-c', '-t', '8', '-f', '1']]
+        ['-r', 'REF', '-f', '1'], ['-r', 'REF', '-c', '-f', '3', '-t', '2'], ['-r', 'REF'], ['-f', '100'], ['-c', '-t', '8', '-f', '1'],
+        # every option on its own and in pairs WITHOUT -c: nothing may be deleted
+        ['-m'], ['-p'], ['-g'], ['-t', '4'], ['-m', '-f', '2'], ['-m', '-g', '-p'], ['-g', '-t', '2', '-f', '1'], ['-d', 'gnu-ld', '-m'], ['-m', '-r', 'REF', '-f', '2']]
 
 
 def make_case(rnd, k, root, modules):
